@@ -406,4 +406,367 @@ theorem deleteSkipValue_spec (q : Queue) (inv : QueueInv q) (it : Item) (hit : i
         · exact inv.bucket x (by rw [har.eq]; simp [hx])
       · simp only; rw [hrem, itemsOf_append, itemsOf_cons]
 
+/-! ### the map -/
+
+theorem mapGet_some {m : List (Nat × Item)} {k : Nat} {it : Item} (h : mapGet m k = some it) :
+    (k, it) ∈ m := by
+  unfold mapGet at h
+  cases hf : m.find? (fun p => p.1 == k) with
+  | none => simp [hf] at h
+  | some p =>
+    simp [hf] at h
+    have h1 := List.find?_some hf
+    have h2 := List.mem_of_find?_eq_some hf
+    simp at h1
+    have : p = (k, it) := by cases p; simp_all
+    rw [← this]; exact h2
+
+theorem mapGet_none {m : List (Nat × Item)} {k : Nat} (h : mapGet m k = none) :
+    ∀ p ∈ m, p.1 ≠ k := by
+  unfold mapGet at h
+  simp at h
+  intro p hp
+  exact h p.1 p.2 hp
+
+theorem mapErase_vals (m : List (Nat × Item)) (k : Nat) (hk : ∀ p ∈ m, p.1 = p.2.id) :
+    (mapErase m k).map (·.2) = (m.map (·.2)).filter (fun x => !decide (x.id = k)) := by
+  unfold mapErase
+  induction m with
+  | nil => rfl
+  | cons p rest ih =>
+    have hp := hk p (by simp)
+    have ih := ih (fun x hx => hk x (by simp [hx]))
+    simp only [List.filter_cons, List.map_cons]
+    by_cases h : p.1 = k
+    · have : p.2.id = k := by omega
+      simp [h, this, ih]
+    · have : ¬ p.2.id = k := by omega
+      simp [h, this, ih]
+
+theorem filter_ne_eq_eraseP (l : List Item) (k : Nat) (hn : (l.map (·.id)).Nodup) :
+    l.filter (fun x => !decide (x.id = k)) = l.eraseP (fun x => decide (x.id = k)) := by
+  induction l with
+  | nil => rfl
+  | cons a rest ih =>
+    rw [List.map_cons, List.nodup_cons] at hn
+    rw [List.filter_cons, List.eraseP_cons]
+    by_cases h : a.id = k
+    · have : ∀ x ∈ rest, (!decide (x.id = k)) = true := by
+        intro x hx
+        have : x.id ≠ a.id := fun e => hn.1 (List.mem_map.mpr ⟨x, hx, e⟩)
+        simp; omega
+      simp [h, List.filter_eq_self.mpr this]
+    · simp [h, ih hn.2]
+
+theorem sum_eraseP (l : List Item) (it : Item) (hit : it ∈ l) (hn : (l.map (·.id)).Nodup) :
+    ((l.eraseP (fun x => decide (x.id = it.id))).map (·.size)).sum = (l.map (·.size)).sum - it.size := by
+  induction l with
+  | nil => cases hit
+  | cons a rest ih =>
+    rw [List.map_cons, List.nodup_cons] at hn
+    rw [List.eraseP_cons]
+    by_cases h : a.id = it.id
+    · have : a = it := by
+        rcases List.mem_cons.mp hit with e | hr
+        · exact e.symm
+        · exact absurd (List.mem_map.mpr ⟨it, hr, h.symm⟩) hn.1
+      subst this
+      simp only [decide_true, cond_true, List.map_cons, List.sum_cons]
+      omega
+    · have hr : it ∈ rest := by
+        rcases List.mem_cons.mp hit with e | hr
+        · exact absurd (by rw [e]) h
+        · exact hr
+      simp only [h, decide_false, cond_false, List.map_cons, List.sum_cons, ih hr hn.2]
+      omega
+
+theorem nodup_ids_sublist {l₁ l₂ : List Item} (h : l₁.Sublist l₂) (hn : (l₂.map (·.id)).Nodup) :
+    (l₁.map (·.id)).Nodup := List.Nodup.sublist (List.Sublist.map _ h) hn
+
+/-- `Remove`: refines removal from the reference list, keeps the invariant. -/
+theorem remove_spec (q : Queue) (inv : QueueInv q) (k : Nat) :
+    QueueInv (q.remove k).1 ∧ (q.remove k).1.items = specRemove q.items k ∧
+    (q.remove k).1.maxsize = q.maxsize ∧
+    ((q.remove k).2 = if q.items.any (fun x => decide (x.id = k)) then Res.ok else Res.notfound) := by
+  unfold Queue.remove
+  cases hg : mapGet q.map k with
+  | none =>
+    simp only
+    have hnone := mapGet_none hg
+    have hno : ∀ x ∈ q.items, ¬ x.id = k := by
+      intro x hx hxk
+      have : x ∈ q.map.map (·.2) := inv.mapPerm.mem_iff.mpr hx
+      obtain ⟨p, hp, rfl⟩ := List.mem_map.mp this
+      exact hnone p hp (by rw [inv.mapKeys p hp]; exact hxk)
+    refine ⟨inv, ?_, by first | rfl | trivial, ?_⟩
+    · unfold specRemove
+      rw [List.eraseP_of_forall_not]
+      intro x hx; simpa using hno x hx
+    · have : q.items.any (fun x => decide (x.id = k)) = false := by
+        rw [List.any_eq_false]; intro x hx; simpa using hno x hx
+      rw [this]; rfl
+  | some it =>
+    simp only
+    have hmem := mapGet_some hg
+    have hid : k = it.id := inv.mapKeys _ hmem
+    have hit : it ∈ q.items := inv.mapPerm.mem_iff.mp (List.mem_map.mpr ⟨_, hmem, rfl⟩)
+    obtain ⟨sl', hdel, hl, hst, hb, hitems⟩ := deleteSkipValue_spec q inv it hit
+    have hdel' : Queue.deleteSkipValue { q with map := mapErase q.map k } it = some sl' := hdel
+    rw [hdel']
+    simp only
+    have hany : q.items.any (fun x => decide (x.id = k)) = true := by
+      rw [List.any_eq_true]; exact ⟨it, hit, by simp [hid]⟩
+    have hitems' : Queue.items { q with map := mapErase q.map k, sl := sl', bytes := q.bytes - it.size }
+        = specRemove q.items k := by rw [hid]; exact hitems
+    refine ⟨⟨hl, hst, hb, ?_, ?_, ?_, ?_⟩, hitems', by first | rfl | trivial, by rw [hany]; rfl⟩
+    · rw [hitems']; exact nodup_ids_sublist List.eraseP_sublist inv.ids
+    · intro p hp
+      exact inv.mapKeys p (List.mem_filter.mp hp).1
+    · rw [hitems']
+      show ((mapErase q.map k).map (·.2)).Perm _
+      rw [mapErase_vals _ _ inv.mapKeys]
+      unfold specRemove
+      rw [← filter_ne_eq_eraseP _ _ inv.ids]
+      exact inv.mapPerm.filter _
+    · rw [hitems']
+      show q.bytes - it.size = _
+      unfold specRemove
+      rw [hid, sum_eraseP _ _ hit inv.ids, inv.bytes]
+
+/-! ### Insert / Last / Push -/
+
+theorem specInsert_perm (l : List Item) (it : Item) : (specInsert l it).Perm (it :: l) := by
+  unfold specInsert
+  have h := List.takeWhile_append_dropWhile (p := fun x : Item => decide (x.score ≥ it.score)) (l := l)
+  conv => rhs; rw [← h]
+  exact List.perm_middle
+
+theorem specInsert_sum (l : List Item) (it : Item) :
+    ((specInsert l it).map (·.size)).sum = (l.map (·.size)).sum + it.size := by
+  unfold specInsert
+  have h := List.takeWhile_append_dropWhile (p := fun x : Item => decide (x.score ≥ it.score)) (l := l)
+  conv => rhs; rw [← h]
+  simp only [List.map_append, List.sum_append, List.map_cons, List.sum_cons]
+  omega
+
+theorem mapGet_some_item (q : Queue) (inv : QueueInv q) {k : Nat} {it : Item}
+    (h : mapGet q.map k = some it) : it ∈ q.items ∧ it.id = k := by
+  have hmem := mapGet_some h
+  exact ⟨inv.mapPerm.mem_iff.mp (List.mem_map.mpr ⟨_, hmem, rfl⟩), (inv.mapKeys _ hmem).symm⟩
+
+theorem mapGet_none_items (q : Queue) (inv : QueueInv q) {k : Nat}
+    (h : mapGet q.map k = none) : ∀ x ∈ q.items, ¬ x.id = k := by
+  have hnone := mapGet_none h
+  intro x hx hxk
+  have : x ∈ q.map.map (·.2) := inv.mapPerm.mem_iff.mpr hx
+  obtain ⟨p, hp, rfl⟩ := List.mem_map.mp this
+  exact hnone p hp (by rw [inv.mapKeys p hp]; exact hxk)
+
+/-- **membership**: `Exist` agrees with the contents. -/
+theorem exist_eq (q : Queue) (inv : QueueInv q) (k : Nat) :
+    q.exist k = q.items.any (fun x => decide (x.id = k)) := by
+  unfold Queue.exist
+  cases hg : mapGet q.map k with
+  | none =>
+    have := mapGet_none_items q inv hg
+    symm; simp only [Option.isSome_none]
+    rw [List.any_eq_false]; intro x hx; simpa using this x hx
+  | some it =>
+    have := mapGet_some_item q inv hg
+    symm; simp only [Option.isSome_some]
+    rw [List.any_eq_true]; exact ⟨it, this.1, by simp [this.2]⟩
+
+/-- **lookup**: `GetItem` returns the member with that id, if any. -/
+theorem getItem_eq (q : Queue) (inv : QueueInv q) (k : Nat) :
+    q.getItem k = q.items.find? (fun x => decide (x.id = k)) := by
+  unfold Queue.getItem
+  cases hg : mapGet q.map k with
+  | none =>
+    have := mapGet_none_items q inv hg
+    symm; rw [List.find?_eq_none]; intro x hx; simpa using this x hx
+  | some it =>
+    have h := mapGet_some_item q inv hg
+    cases hf : q.items.find? (fun x => decide (x.id = k)) with
+    | none =>
+      rw [List.find?_eq_none] at hf
+      exact absurd (by simpa using h.2) (hf it h.1)
+    | some x =>
+      have h1 := List.find?_some hf
+      have h2 := List.mem_of_find?_eq_some hf
+      simp at h1
+      -- ids are unique
+      have hn := inv.ids
+      have : x = it := by
+        apply Classical.byContradiction
+        intro hne
+        have hinj : ∀ (l : List Item), (l.map (·.id)).Nodup → x ∈ l → it ∈ l → x.id = it.id → x = it := by
+          intro l
+          induction l with
+          | nil => intro _ hx; cases hx
+          | cons a rest ih =>
+            intro hnd hx hi he
+            rw [List.map_cons, List.nodup_cons] at hnd
+            rcases List.mem_cons.mp hx with rfl | hx' <;> rcases List.mem_cons.mp hi with rfl | hi'
+            · rfl
+            · exact absurd (List.mem_map.mpr ⟨it, hi', he.symm⟩) hnd.1
+            · exact absurd (List.mem_map.mpr ⟨x, hx', he⟩) hnd.1
+            · exact ih hnd.2 hx' hi' he
+        exact hne (hinj _ hn h2 h.1 (by omega))
+      rw [this]
+
+theorem size_eq (q : Queue) (inv : QueueInv q) : q.size = q.items.length := by
+  unfold Queue.size
+  rw [← inv.mapPerm.length_eq, List.length_map]
+
+theorem insert_spec (q : Queue) (inv : QueueInv q) (it : Item) (lvl : Nat) (hl : 1 ≤ lvl)
+    (hfresh : ∀ x ∈ q.items, ¬ x.id = it.id) :
+    QueueInv (q.insert it lvl) ∧ (q.insert it lvl).items = specInsert q.items it ∧
+    (q.insert it lvl).maxsize = q.maxsize := by
+  obtain ⟨hlanes, hst, hb, hitems⟩ := insertSkipValue_spec q inv it lvl hl
+  have hitems' : (q.insert it lvl).items = specInsert q.items it := hitems
+  have hnokey : ∀ p ∈ q.map, (p.1 != it.id) = true := by
+    intro p hp
+    have : p.2 ∈ q.items := inv.mapPerm.mem_iff.mp (List.mem_map.mpr ⟨p, hp, rfl⟩)
+    have := hfresh p.2 this
+    rw [← inv.mapKeys p hp] at this
+    simpa using this
+  have hmap : (q.insert it lvl).map = q.map ++ [(it.id, it)] := by
+    show mapSet q.map it.id it = _
+    unfold mapSet mapErase
+    rw [List.filter_eq_self.mpr hnokey]
+  refine ⟨⟨hlanes, hst, hb, ?_, ?_, ?_, ?_⟩, hitems', rfl⟩
+  · rw [hitems']
+    have hp := (specInsert_perm q.items it).map (·.id)
+    rw [hp.nodup_iff, List.map_cons, List.nodup_cons]
+    refine ⟨?_, inv.ids⟩
+    intro hmem
+    obtain ⟨x, hx, he⟩ := List.mem_map.mp hmem
+    exact hfresh x hx he
+  · intro p hp
+    rw [hmap] at hp
+    rcases List.mem_append.mp hp with hp | hp
+    · exact inv.mapKeys p hp
+    · simp at hp; subst hp; rfl
+  · rw [hitems', hmap, List.map_append]
+    simp only [List.map_cons, List.map_nil]
+    exact ((List.perm_append_comm).trans (inv.mapPerm.cons it)).trans (specInsert_perm q.items it).symm
+  · rw [hitems', specInsert_sum, ← inv.bytes]; rfl
+
+theorem getLast?_itemsOf (nodes : List (Node (List Item)))
+    (hb : ∀ n ∈ nodes, n.val ≠ []) (n : Node (List Item)) (hn : nodes.getLast? = some n) :
+    (itemsOf nodes).getLast? = n.val.getLast? := by
+  obtain ⟨init, rfl⟩ := List.getLast?_eq_some_iff.mp hn
+  rw [itemsOf_append, itemsOf_cons]
+  simp only [itemsOf, List.flatMap_nil, List.append_nil]
+  rw [List.getLast?_append]
+  have : n.val ≠ [] := hb n (by simp)
+  cases h : n.val.getLast? with
+  | none => rw [List.getLast?_eq_none_iff] at h; exact absurd h this
+  | some x => simp
+
+/-- `Last` is the last item of the walk order (Go `nil` on the empty queue), never a panic. -/
+theorem last_eq (q : Queue) (inv : QueueInv q) : q.last = .ok q.items.getLast? := by
+  unfold Queue.last
+  rw [size_eq q inv]
+  by_cases hemp : q.items = []
+  · simp [hemp]
+  · have hlen : ¬ q.items.length = 0 := by simpa using hemp
+    simp only [hlen, if_false]
+    have hnodes : q.sl.nodes ≠ [] := by
+      intro h; apply hemp; rw [items_def, h]; rfl
+    cases hgl : q.sl.nodes.getLast? with
+    | none => rw [List.getLast?_eq_none_iff] at hgl; exact absurd hgl hnodes
+    | some n =>
+      simp only
+      have hmem : n ∈ q.sl.nodes := List.mem_of_getLast? hgl
+      have := getLast?_itemsOf q.sl.nodes (fun m hm => (inv.bucket m hm).1) n hgl
+      rw [items_def, this]
+      cases h : n.val.getLast? with
+      | none => rw [List.getLast?_eq_none_iff] at h; exact absurd h (inv.bucket n hmem).1
+      | some x => rfl
+
+/-- `First` is the first item of the walk order. -/
+theorem first_eq (q : Queue) (inv : QueueInv q) : q.first = .ok q.items.head? := by
+  unfold Queue.first
+  rw [size_eq q inv]
+  by_cases hemp : q.items = []
+  · simp [hemp]
+  · have hlen : ¬ q.items.length = 0 := by simpa using hemp
+    simp only [hlen, if_false]
+    cases hn : q.sl.nodes with
+    | nil => exfalso; apply hemp; rw [items_def, hn]; rfl
+    | cons n rest =>
+      simp only [List.head?_cons]
+      have hmem : n ∈ q.sl.nodes := by rw [hn]; simp
+      have hne := (inv.bucket n hmem).1
+      rw [items_def, hn, itemsOf_cons]
+      cases hv : n.val with
+      | nil => exact absurd hv hne
+      | cons x xs => rfl
+
+theorem eraseP_last (init : List Item) (t : Item) (hn : ((init ++ [t]).map (·.id)).Nodup) :
+    (init ++ [t]).eraseP (fun x => decide (x.id = t.id)) = init := by
+  have hd := ids_disjoint_left _ _ hn
+  rw [eraseP_append_notin _ _ _ (by
+    intro x hx
+    have := hd x hx t (by simp)
+    simpa using this)]
+  simp [List.eraseP_cons]
+
+/-- **Push refines the reference** (for every level choice `lvl ≥ 1`) and keeps the invariant. -/
+theorem push_spec (q : Queue) (inv : QueueInv q) (it : Item) (lvl : Nat) (hl : 1 ≤ lvl) :
+    QueueInv (q.push it lvl).1 ∧
+    ((q.push it lvl).1.items, (q.push it lvl).2) = specPush q.maxsize q.items it ∧
+    (q.push it lvl).1.maxsize = q.maxsize := by
+  unfold Queue.push specPush
+  rw [exist_eq q inv, size_eq q inv, last_eq q inv]
+  by_cases hex : q.items.any (fun x => decide (x.id = it.id)) = true
+  · simp only [hex, if_true]
+    exact ⟨inv, by first | rfl | trivial, by first | rfl | trivial⟩
+  · simp only [hex, Bool.false_eq_true, if_false]
+    have hfresh : ∀ x ∈ q.items, ¬ x.id = it.id := by
+      have : q.items.any (fun x => decide (x.id = it.id)) = false := by simpa using hex
+      rw [List.any_eq_false] at this
+      intro x hx; simpa using this x hx
+    by_cases hfull : (q.items.length : Int) ≥ q.maxsize
+    · simp only [hfull, if_true]
+      cases hgl : q.items.getLast? with
+      | none => exact ⟨inv, by first | rfl | trivial, by first | rfl | trivial⟩
+      | some tail =>
+        simp only
+        by_cases hbetter : it.score > tail.score ∨ (it.score = tail.score ∧ it.cmpBig tail = true)
+        · simp only [hbetter, if_true]
+          obtain ⟨init, hinit⟩ := List.getLast?_eq_some_iff.mp hgl
+          have htmem : tail ∈ q.items := by rw [hinit]; simp
+          obtain ⟨hinv1, hitems1, hmax1, hres1⟩ := remove_spec q inv tail.id
+          have hany : q.items.any (fun x => decide (x.id = tail.id)) = true := by
+            rw [List.any_eq_true]; exact ⟨tail, htmem, by simp⟩
+          rw [hany] at hres1
+          simp only [if_true] at hres1
+          have hrem : specRemove q.items tail.id = q.items.dropLast := by
+            unfold specRemove
+            have hn := inv.ids
+            rw [hinit] at hn ⊢
+            rw [eraseP_last init tail hn, List.dropLast_concat]
+          generalize hq1 : q.remove tail.id = r at *
+          obtain ⟨q1, r1⟩ := r
+          simp only at hinv1 hitems1 hmax1 hres1
+          subst hres1
+          simp only
+          have hfresh1 : ∀ x ∈ q1.items, ¬ x.id = it.id := by
+            intro x hx
+            rw [hitems1] at hx
+            exact hfresh x (List.eraseP_sublist.subset hx)
+          obtain ⟨hinv2, hitems2, hmax2⟩ := insert_spec q1 hinv1 it lvl hl hfresh1
+          refine ⟨hinv2, ?_, by rw [hmax2, hmax1]⟩
+          rw [hitems2, hitems1, hrem]
+        · simp only [hbetter, if_false]
+          exact ⟨inv, by first | rfl | trivial, by first | rfl | trivial⟩
+    · simp only [hfull, if_false]
+      obtain ⟨hinv2, hitems2, hmax2⟩ := insert_spec q inv it lvl hl hfresh
+      exact ⟨hinv2, by rw [hitems2], hmax2⟩
+
+theorem queueInv_new (cap : Int) : QueueInv (Queue.new cap) := by
+  refine ⟨lanesInv_new, ?_, ?_, ?_, ?_, ?_, ?_⟩ <;> simp [Queue.new, SkipList.new, Queue.items]
+
 end C24
